@@ -23,7 +23,7 @@ fn pool() -> Vec<Option<WireValue>> {
 fn verif_witness() {
     let mut cases = 0usize;
     // pagination
-    for len in 0..=6usize {
+    for len in 0..=(if vw_thorough() { 12usize } else { 6 }) {
         let rows: Vec<WireTuple> = (0..len).map(|i| row(Some(WireValue::Int64(i as i64)), i as i64)).collect();
         for limit in std::iter::once(None).chain((0..=8usize).map(Some)) {
             for offset in std::iter::once(None).chain((0..=8usize).map(Some)) {
@@ -39,7 +39,7 @@ fn verif_witness() {
     }
     // sorting
     let pool = pool();
-    for len in 1..=4usize {
+    for len in 1..=(if vw_thorough() { 5usize } else { 4 }) {
         let total = pool.len().pow(len as u32);
         for code in 0..total {
             let mut c = code; let mut rows = Vec::new();
